@@ -52,12 +52,11 @@ Finding keys are chosen by diagnosis of the failing rendering (is it the renderi
 the source without its leading blank lines? does the stray line vanish without indent
 guides?), never by the input alone, so one defect keeps one key.
 
-Measured (tree f85c7dd, all C17 fixes but the indent-guide one in): quick 537,072
-evaluations (529,680 Syntax renders, 5,600 tracebacks, 640 rewrite-history and 1,152
-Syntax-history renders), 476 distinct outcomes, ~390 CPU-s at load average >100
-(~300 CPU-s idle, ~25 s wall on 16 idle cores); thorough 5.5 M Syntax renders +
-122,304 tracebacks + 3,600 + 6,144 history renders, ~5,000 CPU-s (~6 min on 16 idle
-cores; the earlier 4.49 M-evaluation version measured 3,320 CPU-s).
+Measured (tree 815383d, idle-ish machine, 16 workers): quick 806,064 evaluations
+(747,888 Syntax renders, 14,000 + 2,064 + 640 tracebacks, 40,320 re-renders, 1,152
+Syntax-history renders), 1,675 distinct outcomes, 515 CPU-s, 65 s wall at load 12.
+Thorough (counted): 9.3 M Syntax renders, ~220 k + 56 k tracebacks, ~590 k re-renders:
+~8,500 CPU-s, ~9 min on 16 idle cores.
 """
 import io
 import itertools
@@ -294,6 +293,18 @@ def _parse_numbered(out_lines):
     return rows, g
 
 
+_RE_BLANK_ROW = re.compile(r"(  |%s |> ) *\d+ *" % MARK)
+
+
+def _extra_blank_row(out_lines, problem):
+    """Diagnosis: is the rendering right once its last row -- a numbered row without text -- is taken away?
+    problem(rows, gutter width) -> None when the rows pass the oracle."""
+    if len(out_lines) < 2 or not _RE_BLANK_ROW.fullmatch(out_lines[-1]):
+        return False
+    rows, g = _parse_numbered(out_lines[:-1])
+    return rows is not None and problem(rows, g) is None
+
+
 def _numbered_problem(rows, L, T, rng, start, avail, ww, guides):
     """Judge parsed numbered rows against source lines L. -> None | (clause, message)"""
     a, b = rng if rng else (1, len(L) + 1)
@@ -428,9 +439,18 @@ def judge_syntax(code, lexer, o, rng, out):
     if o["ln"]:
         rows, g = _parse_numbered(out_lines)
         if rows is None:
+            if _extra_blank_row(out_lines, lambda rr, gg: _numbered_problem(
+                    rr, L, T, rng, o["start"], o["cw"] if o["cw"] is not None else o["W"] - gg - 1, o["ww"], o["ig"])):
+                return ("extra-blank-line-after-last", "one more numbered blank line follows the shown lines: %r | "
+                        "source lines %r" % (out_lines, L)), len(out_lines), overflow
             return ("gutter-malformed", "cannot split %r into marker, number, code" % out_lines), 0, overflow
         avail = o["cw"] if o["cw"] is not None else o["W"] - g - 1
         prob = _numbered_problem(rows, L, T, rng, o["start"], avail, o["ww"], o["ig"])
+        if prob and prob[0] not in _RANGE_CLASSES and _extra_blank_row(out_lines, lambda rr, gg: _numbered_problem(
+                rr, L, T, rng, o["start"], avail, o["ww"], o["ig"])):
+            # diagnosis only (chooses the finding key): everything but a last, blank, numbered row is right
+            return ("extra-blank-line-after-last", "one more numbered blank line follows the shown lines: %r | "
+                    "source lines %r" % (out_lines, L)), len(rows), overflow
         if prob and k:
             # diagnosis only (chooses the finding key): is this the rendering of the source without its
             # leading blank lines -- exactly, or up to one of the separately keyed range deviations?
@@ -545,7 +565,7 @@ def check_rerender(code, lexer, dev, rng, seq, res):
     for i, (width, enc) in enumerate(seq):
         o = dict(o0, W=width, enc=enc)
         res.evaluations += 1
-        prob = fresh_prob = None
+        prob = None
         try:
             out = render_on(syn, o)
         except Exception as e:   # noqa: BLE001
@@ -553,23 +573,23 @@ def check_rerender(code, lexer, dev, rng, seq, res):
             prob = (_crash_key("", e).lstrip("/"), "%s: %s" % (type(e).__name__, e))
         if out is not None:
             prob = judge_syntax(code, lexer, o, rng, out)[0]
+        again = False
         if i:
             # the same object again: compare with an equal object that was never rendered
             try:
                 fresh = render_syntax(code, lexer, o, rng)
-                fresh_prob = judge_syntax(code, lexer, o, rng, fresh)[0]
             except Exception:   # noqa: BLE001
-                fresh, fresh_prob = None, ("crash", "")
-            if prob is None and out != fresh:
-                prob = ("differs-from-fresh-object", "render %d of the same object gives %r, a fresh equal object %r" % (
-                    i + 1, out, fresh))
+                fresh = None
+            if out != fresh:
+                again = True
+                prob = ("differs-from-fresh-object", "render %d of the same object gives %r, a fresh equal object %r%s" % (
+                    i + 1, out, fresh, " | oracle on the re-rendering: %s" % (prob[1],) if prob else ""))
         res.sig(("synr", lexer != "nolexer", tuple(sorted(dev)), i, seq[i] != seq[0], prob[0] if prob else "ok"),
                 nontrivial=i > 0)
         if prob:
-            again = i > 0 and fresh_prob is None
+            # a later rendering that equals the fresh object's but fails the oracle is an ordinary Syntax defect
             res.violate(("syntax/rerender/" if again else "syntax/") + prob[0], case,
-                        "render %d of %d on consoles (width, encoding) %r%s: %s" % (
-                            i + 1, len(seq), seq, " -- a fresh equal object renders correctly there" if again else "", prob[1]))
+                        "render %d of %d on consoles (width, encoding) %r: %s" % (i + 1, len(seq), seq, prob[1]))
             return
 
 
@@ -917,12 +937,9 @@ def _judge_traceback(case, text, frames, path, out):
     for (lineno, fn), blk, rows in zip(frames, blocks, parsed):
         if prob:
             break
-        if rows is None:
-            prob = ("block-malformed", "frame %s:%d: cannot split %r into marker, number, code" % (fn, lineno, blk[2]))
-            break
         clipped = clipped or lineno - case["extra"] < 1 or lineno + case["extra"] > len(L)
 
-        def judge(LL):
+        def judge(LL, rows=rows):
             marked = [r for r in rows if r[1]]
             if not marked:
                 return ("marker-missing", "frame %s:%d: no line carries the marker" % (fn, lineno))
@@ -938,8 +955,15 @@ def _judge_traceback(case, text, frames, path, out):
                                 fn, lineno, num, pieces, num, want))
             return None
 
-        prob = judge(L)
-        if prob and k:
+        prob = judge(L) if rows is not None else (
+            "block-malformed", "frame %s:%d: cannot split %r into marker, number, code" % (fn, lineno, blk[2]))
+        if prob and _extra_blank_row(blk[2], lambda rr, _g: judge(L, rr)):
+            # diagnosis only (chooses the finding key): everything but a last, blank, numbered row is right
+            prob = ("extra-blank-line-after-last", "frame %s:%d: one more numbered blank line follows the shown "
+                                                   "lines: %r" % (fn, lineno, blk[2]))
+        if rows is None:
+            break
+        if prob and k and prob[0] != "extra-blank-line-after-last":
             # diagnosis: is this the rendering of the file without its leading blank lines?
             LL = L[k:]
             # (a blank row numbered beyond the end of the shortened file is what an empty selection looks like)
